@@ -15,11 +15,15 @@ xpmc/x_c14_heat.py from the docstrings) is evaluated on the returned temperature
   steady:limit        T(100 tscale) = the stated static solution
   finite:*            no NaN/inf at any lattice point inside the closed domain at t > 0
 
-Series truncation (class D): a clause whose residual exceeds its tolerance at the configured Nsum is re-evaluated with
-4x the terms; it is a truncation artefact (counted, not reported) iff the residual then is within tolerance or has
-fallen to <= 0.6x; a wrong mode number / coefficient / static part does not fall.
+Series truncation (class D): a boundary/initial/steady/axis clause whose residual exceeds its tolerance at the configured
+Nsum is re-evaluated with 4x (if that overflows: 2x) the terms; it is a truncation artefact (counted, not reported) iff the
+residual then is within tolerance or has fallen to <= 0.6x; a wrong mode number / coefficient / static part does not
+fall.  If no longer series is evaluable the comparison is made with half the terms.  The interior PDE residual of a
+truncated eigenfunction expansion does not depend on the number of terms and is never excused.
 """
+import json
 import math
+import os
 
 import numpy as np
 
@@ -66,7 +70,7 @@ K = {"quick": 1, "thorough": 2}
 COEF = {"quick": [0.0, 1.0, -1.0, 2.0], "thorough": [0.0, 1.0, -1.0, 0.5, 2.0]}
 ALPHABET = {
     "Rod1D": {"gamma1": [0.0, 1.0, 2.0], "gamma2": [0.0, 1.0, 2.0], "TL": [3.0, 0.0, 1.0], "TR": [3.0, 0.0, 1.0],
-              "L": [2.0, 0.7], "kappa": [1.0, 0.3], "Nsum": [100, 400]},
+              "L": [2.0, 0.7, 1.0], "kappa": [1.0, 0.3], "Nsum": [100, 400]},
     "PlanarSandwich": {"TB": [1.0, 0.0, 2.0], "TT": [0.0, 1.0, 2.0], "TL": [0.0, 1.0], "TR": [0.0, 1.0],
                        "L": [2.0, 0.7], "kappa": [1.0, 0.3], "Nsum": [10000, 100, 400]},
     "PlanarSandwichHot": {"F": [0.0, 1.0, -1.0], "TL": [3.0, 0.0, 1.0], "TR": [3.0, 0.0, 1.0],
@@ -81,8 +85,9 @@ ALPHABET = {
     "CylindricalSandwich": {"kappa": [1.0, 0.3], "a": [0.25, 0.4], "b": [0.85, 1.0], "T1": [1.0, 2.0], "T0": [0.0, 0.5]},
 }
 CYL_SIZE = {"quick": (5, 10), "thorough": (10, 40)}
-ORDER = ["Rod1D", "PlanarSandwich", "PlanarSandwichHot", "PlanarSandwichHalf", "Rectangle", "Hutchens1", "Hutchens2",
-         "CylindricalSandwich"]
+# heavy families first (better packing of the worker pool); within a family the simplest vector comes first
+ORDER = ["Rectangle", "CylindricalSandwich", "PlanarSandwich", "PlanarSandwichHot", "PlanarSandwichHalf", "Hutchens1", "Hutchens2",
+         "Rod1D"]
 
 # ---- tolerances (class D).  Measured worst residual of the clauses that the pinned tree satisfies, thorough lattice,
 # ---- is noted next to each; tolerance >= 10x that.
@@ -131,10 +136,10 @@ def tasks(tier, seed):
                 for dev in devs:
                     out.append({"family": fam, "bc": c, "dev": dev})
         elif fam == "CylindricalSandwich":
-            for dev in lattice.enumerate_checked(ALPHABET[fam], 1):
-                out.append({"family": fam, "size": list(CYL_SIZE[tier]), "dev": dev})
             if tier == "thorough":
                 out.append({"family": fam, "size": [20, 100], "dev": {}, "reduced_lattice": True})
+            for dev in lattice.enumerate_checked(ALPHABET[fam], 1):
+                out.append({"family": fam, "size": list(CYL_SIZE[tier]), "dev": dev})
         else:
             for dev in devs:
                 out.append({"family": fam, "dev": dev})
@@ -236,6 +241,7 @@ def run_task(task):
         if not prob.tags["dissipative"]:
             bump("skipped_initial_steady_nondissipative")
     others = {}
+    dead = set()
 
     def other(factor):
         """The same problem with `factor` x the series terms (built once per task, lazily)."""
@@ -297,18 +303,25 @@ def run_task(task):
             detail = dict(r.get("detail", {}))
             extra = {}
             # --- series truncation or defect?  the residual must fall when the number of terms grows
-            if prob.nsum:
+            # (not for the PDE clause: every term of a truncated eigenfunction expansion solves the PDE, so an interior
+            #  residual does not depend on the number of terms and is never excused as truncation)
+            if prob.nsum and kind != "pde":
                 pick = {"initial:rise": "rise", "axis:limit-exists": "spread"}.get(cl, "value")
 
                 def value_at(factor):
+                    if (factor, kind, k) in dead:     # overflow of a longer series does not depend on the time
+                        return None
                     o = other(factor)
-                    if o is None:
+                    rr = None
+                    if o is not None:
+                        try:
+                            rr = evaluate(o, spec)
+                        except Exception:
+                            rr = None
+                    if rr is None or not rr["finite"]:
+                        dead.add((factor, kind, k))
                         return None
-                    try:
-                        rr = evaluate(o, spec)
-                    except Exception:
-                        return None
-                    return float(rr[pick]) if rr["finite"] else None
+                    return float(rr[pick])
 
                 fell = None
                 for factor in (4, 2):
@@ -346,4 +359,7 @@ def run_task(task):
     res["sample"] = {"family": fam, "cfg": {k: v for k, v in cfg.items()}, "tags": prob.tags, "tscale": prob.tscale,
                      "clauses": sorted({clause_of(prob, s)[0] for s in specs(prob)}), "evaluations": prob.evals}
     res["digest"] = dg.hex()
+    if os.environ.get("XPMC_C14_CALIB"):          # development aid: worst passing residual per clause, one line per task
+        with open(os.environ["XPMC_C14_CALIB"], "a") as f:
+            f.write(json.dumps({"task": task, "calib": calib, "tags": prob.tags}) + "\n")
     return res
